@@ -536,7 +536,9 @@ def value_of(src, ver, name):
 # running one history (in a forked child)
 def yaml_of(build, node):
     """the config document of one build: the entries (plain strings) and the node under key r.
-    layout: 0 = entries before r, 1 = entries after r (evaluated on demand), 2 = entries are themselves computed"""
+    layout: 0 = entries before r, 1 = entries after r (evaluated on demand), 2 = entries are themselves computed,
+    3 = as 0, preceded by a SIBLING !eval node whose code defines every entry / symbol name in its own globals (a node's
+    definitions are its own: the names r uses still resolve as the specification says)"""
     lay = build.get("layout", 0)
     ents = []
     for name, ver in sorted(build["cfg"].items()):
@@ -546,6 +548,10 @@ def yaml_of(build, node):
         else:
             ents.append("%s: %s" % (name, json.dumps(val)))
     r = "r: " + node
+    if lay == 3:
+        names = sorted(set(build["cfg"]) | set(build.get("syms", {})))
+        code = "globals().update({" + ", ".join("%r: 'LEAK'" % n for n in names) + "}) or 0"
+        ents = ["q0: !eval " + json.dumps(code)] + ents
     lines = [r] + ents if lay == 1 else ents + [r]
     return "\n".join(lines) + "\n"
 
